@@ -14,7 +14,7 @@
      R<field>         read that attribute (after construction) *)
 From Coq Require Import List NArith Bool String.
 Import ListNotations.
-Require Import Show MetaTable MetaModel.
+Require Import Show MetaTable MetaBase MetaShow MetaModel.
 Open Scope N_scope.
 
 Record oentry := { oe_comp : N; oe_key : list N; oe_v : option (list N); oe_c : option (list N); oe_w : option (list N) }.
@@ -69,28 +69,11 @@ Definition oracles_of (tbl : list oentry) : oracles :=
                          | None => None end;
      o_path := fun s => negb (is_some (or_text tbl 4 s)) |}.
 
-(* ---- rendering: a string is its code points, "104.105"; list [a,b]; dict {k:v,...}; None N *)
-Definition show_s (s : list N) : list N := [34] ++ join [46] (map show_N s) ++ [34].
+(* ---- rendering (MetaShow.v): a string is its code points, "104.105"; list [a,b]; dict {k:v,...}; None N *)
 Definition show_enr (e : enr) : list N :=
-  match e with
-  | ENone => asc "N"
-  | EStr s => show_s s
-  | EList l => [91] ++ join [44] (map show_s l) ++ [93]
-  | EDict d => [123] ++ join [44] (map (fun p => show_s (fst p) ++ [58] ++ show_s (snd p)) d) ++ [125]
-  end.
+  match e with ENone => asc "N" | EStr s => show_s s | EList l => show_list l | EDict d => show_dict d end.
 Definition show_res (r : res) : list N :=
   match r with Ok e => show_enr e | Invalid f => asc "E:" ++ f | Crash c => asc "!EXC:" ++ c end.
-
-(* sorted(): lexicographic on code points *)
-Fixpoint str_ltb (a b : list N) : bool :=
-  match a, b with
-  | _, [] => false
-  | [], _ :: _ => true
-  | x :: a', y :: b' => (x <? y) || ((x =? y) && str_ltb a' b')
-  end.
-Fixpoint insert_s (x : list N) (l : list (list N)) : list (list N) :=
-  match l with [] => [x] | y :: t => if str_ltb y x then y :: insert_s x t else x :: l end.
-Definition sort_s (l : list (list N)) : list (list N) := fold_right insert_s [] l.
 
 Definition show_fr (O : oracles) (r : frres) (rs : list (list N)) : list N :=
   match r with
